@@ -448,7 +448,7 @@ func c01pOracle(k c01pCase, res []c01pResult) [][2]string {
 
 // ---- deterministic programs ----------------------------------------------------------------
 
-func c01pBoundaryCases() []c01pCase {
+func c01pBoundaryCases(all bool) []c01pCase {
 	var out []c01pCase
 	type variant struct {
 		name     string
@@ -470,7 +470,13 @@ func c01pBoundaryCases() []c01pCase {
 		{"le4-pad0", 4, 7, 0, 0, 3},
 		{"le4-pad255", 4, 48, 255, 37, 1},
 	}
+	// quick: every mode once and both padding maxima on each side (the server side of a variant has the
+	// complementary maximum 255-pad and another mode); thorough: the full product
+	quick := map[string]bool{"le0-pad0": true, "le0-pad255": true, "le1-pad0": true, "le2-pad255": true, "le3-pad0": true, "le4-pad255": true}
 	for i, v := range vs {
+		if !all && !quick[v.name] {
+			continue
+		}
 		cp := patJSON(c01pPattern(v.le, v.rot, v.pad, true))
 		// the server side alternates between mirroring the client's mode and another one / off
 		sle := []int{0, 2, 1, 4, 2, 0, 3, 1, 4, 3}[i]
@@ -592,7 +598,7 @@ func c01pSegLine(s *wire.Segment) string {
 func init() {
 	core.RegisterExtra("C01", func(c *core.Ctx) {
 		c.Correspondence("program stage: deterministic boundary and close programs; per session and direction the decoded wire = the Lean session model's prediction (tcps-*), reads accepted by the model's Read")
-		cases := append(c01pBoundaryCases(), c01pCloseCases()...)
+		cases := append(c01pBoundaryCases(c.Thorough()), c01pCloseCases()...)
 		t0 := time.Now()
 		core.Parallel(len(cases), 6, func(i int) { c01pRun(c, cases[i]) })
 		t1 := time.Now()
